@@ -1,5 +1,5 @@
 (* C15 - concurrent batches with overlapping keys always complete. *)
-From DV Require Import Model.ConcRules Model.ConcVariants Proofs.ConcProofs Proofs.ConcRulesProofs Proofs.ConcVariantsProofs.
+From DV Require Import Model.ConcRules Model.ConcVariants Proofs.ConcProofs Proofs.ConcRulesProofs Proofs.ConcVariantsProofs Model.ConcSlots Proofs.ConcSlotsProofs.
 Local Open Scope Z_scope.
 
 (* (a) Progress: in every reachable world (any number of requests, any key lists - same keys in
@@ -33,3 +33,16 @@ Proof. exact deadlock_without_prelock. Qed.
 Example C15_example :
   run_sched_v ckeys (cdecide rc) true true (init s0 [ab; ba]) [0; 0; 1]%nat = None.
 Proof. exact no_deadlock_with_prelock. Qed.
+
+(* a lock table of shared slots instead of a mutex per key: a request naming two distinct keys of one slot
+   waits for a mutex it holds itself, inside the locker-wide section - and every other request with it *)
+Lemma C15_refuted_shared_lock_slots :
+  exists w, run_sched_s ckeys (cdecide rc) slot1024 (init s0 [colliding; bystander]) [0; 0]%nat = Some w /\
+            stuck_s ckeys (cdecide rc) slot1024 w = true /\ unfinished w = true.
+Proof. exact self_deadlock_with_shared_slots. Qed.
+
+(* with a mutex per key (slot = identity: fire_s_id) the same two requests complete *)
+Example C15_example_per_key_mutexes :
+  exists w, run_sched_s ckeys (cdecide rc) (fun k => k) (init s0 [colliding; bystander])
+              [0; 0; 0; 0; 0; 0; 0; 0; 0; 0; 1; 1; 1; 1; 1; 1; 1]%nat = Some w /\ unfinished w = false.
+Proof. exact per_key_mutexes_complete. Qed.
